@@ -43,7 +43,7 @@ ASSUMPTIONS = [
 FLOORS = {
     'family:native': 0.2,
     'family:function': 0.12,
-    'family:class-wrapped': 0.25,
+    'family:class-wrapped': 0.2,
     'params-changed-at-import': 0.2,
     'trains>=2': 0.3,
     'route:functor-pickled': 0.05,
